@@ -429,7 +429,7 @@ theorem strIncrFloat_refines {db : DB} (hw : db.WF) {now : Int} {k : Bytes}
   have hz : Dyadic.zero + d = d := rfl
   rcases holder hw now k with ⟨h, hg, hr⟩ | ⟨_, h, hl, _, _⟩ | ⟨r, b, h, _, ht, hg, hr⟩ |
     ⟨r, w, h, _, ht, hg, hv, hr⟩
-  · cases hf : formatFloatDec d with
+  · cases hf : formatFloatDec (f64add 0 d) with
     | none =>
       obtain ⟨x, hx⟩ := strUpdate1_ok_of_absent now h
       simp [update, strIncrFloat, hr, hv0, hz, hf, hx, Res.err, Spec.strIncrFloat, hg, Spec.skip,
@@ -445,7 +445,7 @@ theorem strIncrFloat_refines {db : DB} (hw : db.WF) {now : Int} {k : Bytes}
     | unknown =>
       simp [update, strIncrFloat, hr, hvf, Res.err, Spec.strIncrFloat, hg, Spec.skip, purge_abs hw.names]
     | val x =>
-      cases hf : formatFloatDec (x + d) with
+      cases hf : formatFloatDec (f64add x d) with
       | none =>
         obtain ⟨y, hy⟩ := strUpdate1_ok_of_str now h ht
         simp [update, strIncrFloat, hr, hvf, hf, hy, Res.err, Spec.strIncrFloat, hg, Spec.skip,
@@ -456,7 +456,7 @@ theorem strIncrFloat_refines {db : DB} (hw : db.WF) {now : Int} {k : Bytes}
           Spec.ok, ha, updOld]
   · have he := fun v => strWrite_other (v := v) (onNew := setNew k none now) (onOld := updOld now) h ht
     have hu := strUpdate1_err_of_other now h ht
-    cases hf : formatFloatDec d <;> cases w <;> first | exact absurd rfl (hv _) |
+    cases hf : formatFloatDec (f64add 0 d) <;> cases w <;> first | exact absurd rfl (hv _) |
       simp [update, strIncrFloat, hr, hv0, hz, hf, hu, strUpdateTx_eq, he, Res.err, Spec.strIncrFloat, hg,
         Spec.er, purge_abs hw.names]
 
